@@ -211,7 +211,7 @@ def run_inputs_one(case):
     for l in case["bnet"].split("\n"):
         v = l.split(",")[0].strip()
         lines.append(f"{v}, {'true' if val[v] else 'false'}" if v in val else l)
-    sub = make_sd({"bnet": "\n".join(lines)})
+    sub = make_sd({"bnet": "\n".join(lines), "order": case.get("order")})     # same declared order: states are compared as strings
     sub.expand_bfs()
     fails = []
     from biobalm.space_utils import percolate_space
